@@ -6,19 +6,30 @@
 (* offsets are ids, the tag bits are logged as op = add | upd | del.            *)
 (*                                                                             *)
 (* bufs[b] is the model of buffer id b. Merge does not touch its inputs in the  *)
-(* model; the driver logs the full content (Iter()) of every input before and   *)
-(* after each Merge and of the output, so "inputs unchanged", "sorted, no       *)
-(* duplicates" (Content must equal the model's ordered entry list exactly) and  *)
-(* "same mapping as applying the buffers in order" are all checked by equality. *)
+(* model; the driver logs the full content (Iter()) of every input before each  *)
+(* Merge and of the output, so "sorted, no duplicates" (Content must equal the  *)
+(* model's ordered entry list exactly) and "same mapping as applying the        *)
+(* buffers in order" are checked by equality.                                   *)
+(* "Input buffers left unchanged" (IxBufStore.tla: InputsUnchanged): a buffer   *)
+(* that was an argument or the result of a Merge is frozen -- it is a value      *)
+(* shared with older snapshots. seen[b] is its content as logged BEFORE the      *)
+(* operation (Content event). After every Merge the driver reads every frozen    *)
+(* buffer again (Recheck: Iter, Len, Check, Lookup of every key of the universe) *)
+(* -- the inputs of this merge and all buffers of earlier merges, whose chunks   *)
+(* the later merges pass through or might write to. A Recheck must be identical  *)
+(* to seen[b] and to the model; filling a frozen buffer is a harness error.      *)
 EXTENDS TraceBase, IxBufOps, OrdMapOps
 
-VARIABLES l, K, emptyKey, PG, SF, bufs, its
+VARIABLES l, K, emptyKey, PG, SF, bufs, its,
+          frozen,   \* buffers that were a Merge argument or result (shared, immutable from then on)
+          seen      \* seen[b] = <<ks, ops, offs>> of the last Content event of buffer b (<<>> = none)
 
-tvars == <<l, K, emptyKey, PG, SF, bufs, its>>
+tvars == <<l, K, emptyKey, PG, SF, bufs, its, frozen, seen>>
 
 Ev == Log[l]
 
 TraceInit == HWInit /\ l = 1 /\ K = 0 /\ emptyKey = 0 /\ PG = <<>> /\ SF = <<>> /\ bufs = <<>> /\ its = <<>>
+             /\ frozen = {} /\ seen = <<>>
 
 IsEvent(e) == l <= NLog /\ Ev.e = e /\ l' = l + 1
 
@@ -27,23 +38,28 @@ IsEvent(e) == l <= NLog /\ Ev.e = e /\ l' = l + 1
 Holds(b) == b = TRUE
 
 NoBuf == <<>>
+NoSeen == <<>>
 NoIt == [b |-> 0, c |-> CurRew, org |-> 0, end |-> 0, sk |-> <<>>]
 GrowTo(s, n, fill) == [i \in 1..(IF n > Len(s) THEN n ELSE Len(s)) |-> IF i <= Len(s) THEN s[i] ELSE fill]
 IsBuf(b) == b \in 1..Len(bufs) /\ bufs[b] # NoBuf
 
 TrReset == /\ IsEvent("Reset")
            /\ K' = 0 /\ emptyKey' = 0 /\ PG' = <<>> /\ SF' = <<>> /\ bufs' = <<>> /\ its' = <<>>
+           /\ frozen' = {} /\ seen' = <<>>
 
 \* scenario start: universe size; emptykey = 1 when rank 1 is the empty string; for composite
 \* keys the prefix / suffix rank of every key (skip-scan), else empty
 TrScn == /\ IsEvent("Scn")
          /\ K' = Ev.K /\ emptyKey' = Ev.emptykey /\ PG' = Ev.pg /\ SF' = Ev.sf /\ bufs' = <<>> /\ its' = <<>>
+         /\ frozen' = {} /\ seen' = <<>>
 
 \* b = &ixbuf.T{}
 TrNew == /\ IsEvent("New")
          /\ Ev.b >= 1
+         /\ Ev.b \notin frozen
          /\ bufs' = [GrowTo(bufs, Ev.b, NoBuf) EXCEPT ![Ev.b] = EmptyBuf(K)]
-         /\ UNCHANGED <<K, emptyKey, PG, SF, its>>
+         /\ seen' = [GrowTo(seen, Ev.b, NoSeen) EXCEPT ![Ev.b] = NoSeen]
+         /\ UNCHANGED <<K, emptyKey, PG, SF, its, frozen>>
 
 \* a sequence of Insert / Update / Delete calls on buffer b (ks[i], ops[i], offs[i]) with their
 \* returned old offsets; the driver only generates valid sequences (checked: harness error otherwise)
@@ -51,11 +67,13 @@ TrFill ==
     /\ IsEvent("Fill")
     /\ Ev.ok = 1
     /\ IsBuf(Ev.b)
+    /\ Assert(Ev.b \notin frozen, "harness error: change applied to a buffer that was merged (frozen)")
     /\ LET cs == [i \in 1..Len(Ev.ks) |-> Ch(Ev.ops[i], Ev.offs[i])] IN
         /\ Assert(BFillValid(bufs[Ev.b], Ev.ks, cs, 1), "harness error: invalid change sequence generated")
         /\ Holds(Ev.olds = BFillOlds(bufs[Ev.b], Ev.ks, cs, 1))
         /\ bufs' = [bufs EXCEPT ![Ev.b] = BFill(@, Ev.ks, cs, 1)]
-    /\ UNCHANGED <<K, emptyKey, PG, SF, its>>
+    /\ seen' = [seen EXCEPT ![Ev.b] = NoSeen]
+    /\ UNCHANGED <<K, emptyKey, PG, SF, its, frozen>>
 
 \* out = ixbuf.Merge(ins...)
 TrMerge ==
@@ -63,9 +81,13 @@ TrMerge ==
     /\ Ev.ok = 1
     /\ Holds(\A i \in 1..Len(Ev.ins) : IsBuf(Ev.ins[i]))
     /\ Len(Ev.ins) >= 2 /\ Ev.out >= 1
+    /\ Assert(\A i \in 1..Len(Ev.ins) : seen[Ev.ins[i]] # NoSeen,
+              "harness error: content of a merge input not logged before the merge")
     /\ LET m == MergeSeq([i \in 1..Len(Ev.ins) |-> bufs[Ev.ins[i]]], FALSE) IN
         /\ Assert(~HasInvalid(m), "harness error: buffers merged in an invalid order")
         /\ bufs' = [GrowTo(bufs, Ev.out, NoBuf) EXCEPT ![Ev.out] = m]
+    /\ seen' = [GrowTo(seen, Ev.out, NoSeen) EXCEPT ![Ev.out] = NoSeen]
+    /\ frozen' = frozen \cup {Ev.ins[i] : i \in 1..Len(Ev.ins)} \cup {Ev.out}
     /\ UNCHANGED <<K, emptyKey, PG, SF, its>>
 
 \* Check() reports a (false) duplicate when the buffer contains the empty key, because its
@@ -83,7 +105,29 @@ TrContent ==
               /\ Ev.offs = EntOffs(b, Ev.ks)
               /\ Ev.len = Len(Ev.ks)
               /\ CheckOK(b, Ev.chk))
-    /\ UNCHANGED <<K, emptyKey, PG, SF, bufs, its>>
+    /\ seen' = [seen EXCEPT ![Ev.b] = <<Ev.ks, Ev.ops, Ev.offs>>]
+    /\ UNCHANGED <<K, emptyKey, PG, SF, bufs, its, frozen>>
+
+\* InputsUnchanged: a frozen buffer (argument / result of an earlier Merge) read again after the
+\* Merge that produced buffer Ev.after (0 = end of the scenario): Iter(), Len(), Check() and, when
+\* lkops is not empty, Lookup of EVERY key of the universe. Must be identical to what was logged
+\* before the operation (seen) and to the model.
+TrRecheck ==
+    /\ IsEvent("Recheck")
+    /\ Ev.ok = 1
+    /\ IsBuf(Ev.b) /\ Ev.b \in frozen
+    /\ Assert(seen[Ev.b] # NoSeen, "harness error: recheck of a buffer whose content was never logged")
+    /\ LET b == bufs[Ev.b] IN
+        Holds(/\ <<Ev.ks, Ev.ops, Ev.offs>> = seen[Ev.b]
+              /\ Ev.ks = EntKeys(b)
+              /\ Ev.ops = EntOps(b, Ev.ks)
+              /\ Ev.offs = EntOffs(b, Ev.ks)
+              /\ Ev.len = Len(Ev.ks)
+              /\ CheckOK(b, Ev.chk)
+              /\ \/ Ev.lkops = <<>> /\ Ev.lkoffs = <<>>
+                 \/ /\ Ev.lkops = [k \in 1..K |-> b[k].op]
+                    /\ Ev.lkoffs = [k \in 1..K |-> b[k].off])
+    /\ UNCHANGED <<K, emptyKey, PG, SF, bufs, its, frozen, seen>>
 
 \* Lookup(key): the entry (tag + offset) or nothing
 TrLookup ==
@@ -91,7 +135,7 @@ TrLookup ==
     /\ Ev.ok = 1
     /\ IsBuf(Ev.b) /\ Ev.k \in 1..K
     /\ bufs[Ev.b][Ev.k] = Ch(Ev.op, Ev.off)
-    /\ UNCHANGED <<K, emptyKey, PG, SF, bufs, its>>
+    /\ UNCHANGED <<K, emptyKey, PG, SF, bufs, its, frozen, seen>>
 
 \* RangeActivity(org, end): number of entries with org <= key < end
 TrRangeAct ==
@@ -99,7 +143,7 @@ TrRangeAct ==
     /\ Ev.ok = 1
     /\ IsBuf(Ev.b)
     /\ Ev.n = Cardinality({k \in 1..K : bufs[Ev.b][k].op # "none" /\ Ev.org <= k /\ k < Ev.end})
-    /\ UNCHANGED <<K, emptyKey, PG, SF, bufs, its>>
+    /\ UNCHANGED <<K, emptyKey, PG, SF, bufs, its, frozen, seen>>
 
 \* RangeApproxDelta(org, end): adds minus deletes among the entries with org <= key < end
 \* (abs, neg = magnitude and sign)
@@ -111,13 +155,13 @@ TrRangeDelta ==
            adds == Cardinality({k \in 1..K : bufs[Ev.b][k].op = "add" /\ InR(k)})
            dels == Cardinality({k \in 1..K : bufs[Ev.b][k].op = "del" /\ InR(k)}) IN
         Holds(IF Ev.neg = 1 THEN dels = adds + Ev.abs ELSE adds = dels + Ev.abs)
-    /\ UNCHANGED <<K, emptyKey, PG, SF, bufs, its>>
+    /\ UNCHANGED <<K, emptyKey, PG, SF, bufs, its, frozen, seen>>
 
 TrItNew ==
     /\ IsEvent("ItNew")
     /\ IsBuf(Ev.b) /\ Ev.it >= 1
     /\ its' = [GrowTo(its, Ev.it, NoIt) EXCEPT ![Ev.it] = [b |-> Ev.b, c |-> CurRew, org |-> 0, end |-> K + 1, sk |-> <<>>]]
-    /\ UNCHANGED <<K, emptyKey, PG, SF, bufs>>
+    /\ UNCHANGED <<K, emptyKey, PG, SF, bufs, frozen, seen>>
 
 \* iterator call on an unmodified buffer: same contract as the btree iterator (OrdMapOps cursor);
 \* Cur() = key rank + entry (tag, offset)
@@ -147,11 +191,11 @@ TrItOp ==
                  /\ (Ev.op = "prev" /\ ~skip) => PrevMeaning(mm, i.c, c2, i.org, i.end)
                  /\ (Ev.op = "seek" /\ ~skip) => SeekMeaning(mm, Ev.k, c2, i.org, i.end))
         /\ its' = [its EXCEPT ![Ev.it] = i2]
-    /\ UNCHANGED <<K, emptyKey, PG, SF, bufs>>
+    /\ UNCHANGED <<K, emptyKey, PG, SF, bufs, frozen, seen>>
 
-TrNote == /\ IsEvent("Note") /\ UNCHANGED <<K, emptyKey, PG, SF, bufs, its>>
+TrNote == /\ IsEvent("Note") /\ UNCHANGED <<K, emptyKey, PG, SF, bufs, its, frozen, seen>>
 
-TraceNext == TrReset \/ TrScn \/ TrNew \/ TrFill \/ TrMerge \/ TrContent \/ TrLookup \/ TrRangeAct \/ TrRangeDelta
+TraceNext == TrReset \/ TrScn \/ TrNew \/ TrFill \/ TrMerge \/ TrContent \/ TrRecheck \/ TrLookup \/ TrRangeAct \/ TrRangeDelta
              \/ TrItNew \/ TrItOp \/ TrNote
 
 TraceSpec == TraceInit /\ [][TraceNext]_tvars
